@@ -550,6 +550,19 @@ def _index_into(
 
     # }}}
 
+    # {{{ fixed-width NumPy integers wrap around (or overflow) in the arithmetic
+    # on indices and slice bounds below and in lowering: use Python ints
+
+    def _as_py_int(x: Any) -> Any:
+        return int(x) if isinstance(x, np.integer) else x
+
+    indices = tuple(
+        slice(_as_py_int(idx.start), _as_py_int(idx.stop), _as_py_int(idx.step))
+        if isinstance(idx, slice) else _as_py_int(idx)
+        for idx in indices)
+
+    # }}}
+
     # {{{ "pad" index with complete slices to match ary's ndim
 
     if len(indices) < ary.ndim:
